@@ -465,7 +465,8 @@ class Executor(object):
                 run.report_run_failed(None, None, None)
                 run.report_run_completed(None)
                 if is_first:
-                    self.ui.warning("{ind}Aborting remaining benchmarks using %s." % run.executable)
+                    self.ui.warning("{ind}Aborting remaining benchmarks using %s."
+                                    % escape_braces(str(run.executable)))
                     is_first = False
             else:
                 remaining_runs.append(run)
@@ -520,7 +521,8 @@ class Executor(object):
 
         if adapter is None:
             run_id.fail_immediately()
-            msg = "{ind}Couldn't find gauge adapter: %s\n" % run_id.get_gauge_adapter_name()
+            msg = "{ind}Couldn't find gauge adapter: %s\n" % escape_braces(
+                str(run_id.get_gauge_adapter_name()))
             self.ui.error_once(msg, run_id)
 
         return adapter
